@@ -547,6 +547,14 @@ class Evaluator:
         if obj.op in ("tuple", "list") and idx.op == "const" and isinstance(idx.value, int):
             if not any(e.op == "star" for e in obj.elts) and -len(obj.elts) <= idx.value < len(obj.elts):
                 return obj.elts[idx.value]
+        if obj.op == "if" and idx.op == "const" and type(idx.value) is int and obj.then.op in ("tuple", "list") and obj.other.op in ("tuple", "list"):
+            # (T1 if c else T2)[i] with both arms displays: the component is chosen by the same condition
+            a_, b_ = self.subscript(obj.then, idx, n, mod), self.subscript(obj.other, idx, n, mod)
+            if a_.op != "sub" and b_.op != "sub":
+                return T("if", n, mod, cond=obj.cond, then=a_, other=b_)
+        if obj.op in ("tuple", "list") and len(obj.elts) == 2 and not any(e.op == "star" for e in obj.elts) and _is_truth_valued(idx):
+            # (a, b)[<bool>] with a truth-valued index (isinstance / comparison / not ..) is `b if <bool> else a`
+            return T("if", n, mod, cond=idx, then=obj.elts[1], other=obj.elts[0])
         if obj.op == "dict" and not obj.get("dstar") and obj.items and all(k is not None and k.op == "const" for k, _ in obj.items):
             keys = [k.value for k, _ in obj.items]
             if idx.op == "const":
@@ -1532,12 +1540,28 @@ def _split_tuple_state(lp):
     return T("tuple", lp.node, lp.mod, elts=loops)
 
 
+def _is_truth_valued(t):
+    """is the term a bool by construction (never another int)?"""
+    if t.op in ("cmp", "bool"):
+        return True
+    if t.op == "un" and t.opname == "Not":
+        return True
+    if t.op == "const" and type(t.value) is bool:
+        return True
+    if t.op == "call" and t.fn.op == "ref" and t.fn.ref.qual in ("builtins.isinstance", "autograd.builtins.isinstance", "builtins.bool", "builtins.callable", "builtins.hasattr", "builtins.issubclass"):
+        return True
+    return False
+
+
 def _flatten_pos(args):
     """f(a, *(b, *rest)) == f(a, b, *rest): splice starred tuple/list literals into the positional list."""
     out = []
     for a in args:
         if a.op == "star" and a.x.op in ("tuple", "list"):
             out.extend(_flatten_pos(a.x.elts))
+        elif a.op == "star" and a.x.op == "bin" and a.x.opname == "Add" and (a.x.l.op in ("tuple", "list") or a.x.r.op in ("tuple", "list")):
+            # f(*((a, b) + rest)) == f(a, b, *rest): a starred concatenation is the concatenation of the starred parts
+            out.extend(_flatten_pos([T("star", a.node, a.mod, x=a.x.l), T("star", a.node, a.mod, x=a.x.r)]))
         else:
             out.append(a)
     return out
@@ -1584,6 +1608,9 @@ def children(t):
         return [x for x in (f["init"], f["next"], f.get("it"), f.get("cond")) if x is not None]
     if o == "iterelem":
         return [f["src"]]
+    if o == "loopvar":
+        # (the value a loop-carried variable starts from: what it is computed from is part of the term)
+        return [f["init"]] if f.get("init") is not None else []
     if o in ("star", "dstar", "yield"):
         return [f["x"]]
     if o == "raise":
